@@ -6,6 +6,7 @@ package kvstore
 import (
 	"context"
 	"errors"
+	"fmt"
 	"sort"
 	"strings"
 	"sync"
@@ -18,6 +19,9 @@ import (
 
 // ErrInjected is the injected failure; it matches no hackpadfs sentinel.
 var ErrInjected = errors.New("verif: injected store failure")
+
+// ErrInjectedGone is the injected failure of a lazy evaluation under LazyNotExist; it matches hackpadfs.ErrNotExist.
+var ErrInjectedGone = fmt.Errorf("verif: injected store failure, the object is gone: %w", hackpadfs.ErrNotExist)
 
 // Rec is a stored record.
 type Rec struct {
@@ -35,6 +39,10 @@ type Store struct {
 	FailAt int
 	// FailLen: how many consecutive calls fail from FailAt on (0 or 1 = that one call; an outage otherwise).
 	FailLen int
+	// LazyNotExist: a failing LAZY evaluation (a record's Data() or ReadDirNames()) fails with an error that matches
+	// hackpadfs.ErrNotExist -- what an object store answers when the object went away after it was listed (the S3
+	// example maps NoSuchKey to it) -- instead of ErrInjected. Get and Set failures stay ErrInjected.
+	LazyNotExist bool
 	// FailedSets counts the Set calls that were failed.
 	FailedSets int
 	Fired      string // which call failed ("" if none)
@@ -59,6 +67,9 @@ func (s *Store) tick(what string) error {
 		}
 		if strings.HasPrefix(what, "set ") {
 			s.FailedSets++
+		}
+		if s.LazyNotExist && (strings.HasPrefix(what, "data ") || strings.HasPrefix(what, "list ")) {
+			return ErrInjectedGone
 		}
 		return ErrInjected
 	}
